@@ -44,6 +44,8 @@ type c11Case struct {
 	Passive     bool       `json:"passive"`
 	Faults      []c11Fault `json:"faults"`
 	Via         string     `json:"via"` // how the well-behaved remote lets the session come up: "out" or "in"
+	// Listeners: Serve is given that many more (idle) listeners, around the one in use
+	Listeners int `json:"listeners,omitempty"`
 }
 
 func c11Prop(t *testing.T, r *hx.Run) func(c c11Case) hx.Verdict {
@@ -107,6 +109,7 @@ func c11Prop(t *testing.T, r *hx.Run) func(c c11Case) hx.Verdict {
 				fail("setup", "%v", err)
 				return
 			}
+			w.ExtraListeners(c.Listeners)
 			w.Serve()
 			w.Settle()
 			limit := 2*(idle+retry) + 10*time.Second
@@ -412,6 +415,7 @@ func genC11(rt *rapid.T) c11Case {
 		ConnRetryMs: pick(rt, "retry", 50, 300, 1000, 5000, 11000, 30000, rapid.IntRange(50, 30000).Draw(rt, "retryr")),
 		Passive:     rapid.IntRange(0, 4).Draw(rt, "passive") == 0,
 		Via:         pick(rt, "via", "out", "out", "in"),
+		Listeners:   pick(rt, "listeners", 0, 0, 1, 2),
 	}
 	n := rapid.IntRange(0, 12).Draw(rt, "nfaults")
 	for i := 0; i < n; i++ {
